@@ -50,6 +50,22 @@ def templates():
                 vbs += rc.tlv(0x30, rc.tlv(0x0D, bytes(rel)) + rc.enc_int(2))
                 pdu = rc.tlv(0xA2, rc.enc_int(0x1234567) + rc.enc_int(0) + rc.enc_int(0) + rc.tlv(0x30, vbs))
                 out.append(dict(name="v2c-reloid-%d" % k, ver="v2c", cfg="v2c", b=list(rc.enc_community_msg("v2c", b"public", pdu)), nomutate=True))
+    # well-formed messages whose NAMES are every prefix of the names a client may want to interpret (usmStats* in Reports, the asked
+    # OID in Responses): a prefix match is not a length check.  Reports go to sessions of every security level (they are accepted
+    # without a MAC); values vary with the position.
+    for cfgname in ("v3-noauth", "v3-md5", "v3-sha1-aes", "v2c"):
+        cfg = std[cfgname]
+        for full in ([1, 3, 6, 1, 6, 3, 15, 1, 1, 4, 0], [1, 3, 6, 1, 6, 3, 15, 1, 1, 2, 0], [1, 3, 6, 1, 6, 3, 11, 2, 1, 3, 0], n1):
+            content = rc.oid_content(full)
+            for cut in range(0, len(content) + 1):
+                req = FakeReq(cfg, [rc.oid_content(n1)])
+                val = [("counter32", cut), ("int", cut), ("null",), ("octets", b"")][cut % 4]
+                if cfg.ver == "v3":
+                    d = agent.report(cfg, req, counter=cut) if False else agent.reply(cfg, req, [(bytes(content[:cut]), val)], ptype="report", mac="absent", enc="plain", flag_auth=False, flag_priv=False)
+                    out.append(dict(name="%s-report-name-%d-%d" % (cfgname, full[-2] * 100 + full[-4], cut), ver=cfg.ver, cfg=cfgname, b=list(d), nomutate=True))
+                if full is n1 or cfg.ver != "v3":
+                    d = agent.reply(cfg, req, [(bytes(content[:cut]), val)])
+                    out.append(dict(name="%s-response-name-%d-%d" % (cfgname, full[-2] * 100 + full[-4], cut), ver=cfg.ver, cfg=cfgname, b=list(d), nomutate=True))
     # large replies: the receive buffer takes 4080 octets although the client announces msgMaxSize 2048
     for cfgname in ("v2c", "v1", "v3-noauth", "v3-md5", "v3-sha1", "v3-md5-des", "v3-sha1-aes"):
         cfg = std[cfgname]
